@@ -190,6 +190,41 @@ def c05_first_statement_starting_with_c():
     return fmt.is_free, dict(is_free=fmt.is_free)
 
 
+def c10_walk_misses_nodes_in_nested_list():
+    """D20: walk() did not descend into a list held inside a node's items (COMMON statement)"""
+    from fparser.two.utils import walk
+    from fparser.two.Fortran2003 import Name
+    tree = _parser()(_reader("program e\n  real a(4)\n  common /blk/ a\nend program e\n"))
+    names = [str(n) for n in walk(tree, Name)]
+    return "blk" in names, dict(names=names)
+
+
+def c08_extra_closing_parenthesis_in_attr_spec():
+    """D21: 'integer, intent(in)) :: a' is accepted"""
+    return _rejected("subroutine s(a)\n integer, intent(in)) :: a\nend subroutine s\n")
+
+
+def c20_nested_nonblock_labelled_do_is_exponential():
+    """D22: nested non-block labelled DO loops with distinct labels: rule-constructor calls grow ~2^depth"""
+    from fparser.two import utils as U
+    def count(n):
+        src = "program p\n" + "".join("do %d i%d = 1, 2\n" % (10 + k, k) for k in range(n)) + "".join("%d x = %d\n" % (10 + k, k) for k in reversed(range(n))) + "end program p\n"
+        parser = _parser()
+        calls = [0]
+        orig = U.Base.__new__
+        def counting(cls, *a, **k):
+            calls[0] += 1
+            return orig(cls, *a, **k)
+        U.Base.__new__ = staticmethod(counting)
+        try:
+            parser(_reader(src))
+        finally:
+            U.Base.__new__ = orig
+        return calls[0]
+    c4, c8 = count(4), count(8)
+    return c8 <= 8 * c4 + 200, dict(calls_depth4=c4, calls_depth8=c8)
+
+
 def c14_directive_backslash_at_eof():
     """D9: a directive whose last line ends in a backslash at end of input is lost"""
     r = _reader("x = 1\n#define X \\\n")
